@@ -227,6 +227,23 @@ def gen_wrap_reset_xz(rng):
     f = stream([(data, chain, {'payload': bytes(out)})], cid, rng)
     return f, data, 'wrap-reset b%d cut%d' % (n, cut)
 
+def gen_mt_xz(rng, nblocks=3, bsize=(300, 2500), cid=None):
+    """multi-Block file as the threaded encoder writes it (both sizes in every Block Header), so that the
+    threaded decoder really decodes Blocks in parallel"""
+    cid = cid if cid is not None else rng.choice([1, 4, 10])
+    spec = []; exp = bytearray(); bounds = []
+    for _ in range(nblocks):
+        data = gen_data(rng, rng.randrange(*bsize))
+        chain = [{'id': 'lzma2', 'dict_size': 4096, 'lc': 3, 'lp': 0, 'pb': 2, 'mode': lzma.MODE_FAST, 'nice_len': 32, 'mf': lzma.MF_HC4}]
+        spec.append((data, chain, {'comp_present': True, 'uncomp_present': True})); exp += data
+    f = stream(spec, cid, rng)
+    # block start offsets
+    pos = 12
+    for data, chain, kw in spec:
+        b, unp, unc = block(data, chain, cid, rng, **kw)
+        bounds.append((pos, pos + len(b))); pos += len(b)
+    return f, bytes(exp), bounds
+
 # ---------------------------------------------------------------- malformed
 def mutate(rng, f):
     """field-aware-ish and blind mutations of a valid file"""
